@@ -364,8 +364,13 @@ def _pair(ctx, put, remove):
            evals=max(1, len(states)))
 
 
-def _owner(ctx, server, put, remove):
-    """Who may write the placement state."""
+def _owner(ctx, server, put, remove, detached_exception=True):
+    """Who may write the placement state.  ``detached_exception``: whether
+    the one writer outside Server.put / Server.remove - the validation pass
+    clearing the server of an instance whose server is no longer in the
+    cell - counts as harmless.  It does for the properties whose histories
+    keep the topology fixed; for C01 (servers added and removed) it is
+    finding F18: the server object that left keeps listing the instance."""
     index = ctx.index
     mods = [index.module(K.SCHED), index.module(K.LOADER),
             index.module(K.MASTER)]
@@ -469,6 +474,23 @@ def _owner(ctx, server, put, remove):
                                                'Application.__init__') or \
                             (func.qualname == 'Cell._fix_invalid_placements'
                              and is_none and vanished)
+                        if ok and vanished and not detached_exception:
+                            # F18: the instance is un-placed without being
+                            # taken off the server object - which is only
+                            # detached, not gone: when its bucket is added
+                            # to the cell again it still lists the instance
+                            # (free capacity short by its demand, a second
+                            # "owner" of an instance that lives elsewhere)
+                            ctx.fail('C01.3', func, sub,
+                                     'an instance whose server left the cell '
+                                     'is un-placed by clearing %s.server '
+                                     'alone: the detached server keeps '
+                                     'listing it and counting its demand, and '
+                                     'says so again when its bucket returns '
+                                     'to the cell' % rtxt,
+                                     construct='un-placed without '
+                                               'Server.remove')
+                            continue
                         ctx.ob('C01.3', func, sub, ok,
                                'Application.server written by the leaf '
                                'placement/removal only (named exception: '
@@ -948,7 +970,7 @@ def check(ctx):
     nz, server, _node_cls, put, remove, pred = _roles(ctx)
     _admission(ctx, nz, put, pred)
     _pair(ctx, put, remove)
-    _owner(ctx, server, put, remove)
+    _owner(ctx, server, put, remove, detached_exception=False)
     _single_placement(ctx)
     _conversion(ctx)
     _restore(ctx, server, put)
